@@ -18,6 +18,6 @@ PROP = dict(
     modelled="block queue and MPT-based state restore modelled and proved; Billet's in-memory tree is represented by the pool's (path, hash) pairs; jumpToState, header verification and block storage are exercised by the harness only",
 )
 META = dict(
-    text="Proved in Coq, for all traces: (queue) for every interleaving of Put (any index, duplication, stale height reading), drainer steps, additions by other sources and Discard, the chain accepts exactly h0+1..height in order, each once; no lost wake-up; at rest the node has reached the highest contiguous block effectively given (window and early-drop premises stated); (state sync, repaired mechanism) for every delivery order/batching/duplication, foreign, undecodable and non-canonical data and restarts at any point, the run never fails, the pool empties exactly when every trie node is stored, then the restored (path, node) pairs are exactly the trie's occurrences; foreign data changes nothing. For the code as it is the two failing classes of the mechanism are exhibited as refuted lemmas: F8 (inline-child node accepted, sync completes with nodes missing) and F38 (restart panics once a node is stored at two paths); a third defect, F45 (data decoding to an EmptyNode panics AddMPTNodes), is found by the harness directly. Tie: real bqueue.Queue under serialised schedules compared step by step with the model (AddItem attempts, lengths, LastQueued) plus concurrent stress also under -race; real statesync.Module on LevelDB against neotest source chains (random sync points, delivery orders, wrong data, restarts), pool compared with the model after every operation, final state root, storage dump, own trie and lock-step continuation compared with the source. Blocks stage (added after the third mutation round): blocks of the traceable window offered under the genuine header with a stripped / shortened / reordered / foreign transaction list, or under another header, must be refused and the window read back after the jump must equal the source's blocks with their transactions; proved for the model of AddBlock: accepted implies header hash = synchronised header's and Merkle(delivered transactions) = header's Merkle root. Partial: crash (non-clean) restarts, storage-item sync mode, uint32 wrap-around.",
+    text="Proved in Coq, for all traces: (queue) for every interleaving of Put (any index, duplication, stale height reading), drainer steps, additions by other sources and Discard, the chain accepts exactly h0+1..height in order, each once; no lost wake-up; at rest the node has reached the highest contiguous block effectively given (window and early-drop premises stated); (state sync, repaired mechanism) for every delivery order/batching/duplication, foreign, undecodable and non-canonical data and restarts at any point, the run never fails, the pool empties exactly when every trie node is stored, then the restored (path, node) pairs are exactly the trie's occurrences; foreign data changes nothing. For the code as it is the two failing classes of the mechanism are exhibited as refuted lemmas: F8 (inline-child node accepted, sync completes with nodes missing) and F38 (restart panics once a node is stored at two paths); a third defect, F45 (data decoding to an EmptyNode panics AddMPTNodes), is found by the harness directly. Tie: real bqueue.Queue under serialised schedules compared step by step with the model (AddItem attempts, lengths, LastQueued) plus concurrent stress also under -race; real statesync.Module on LevelDB against neotest source chains (random sync points, delivery orders, wrong data, restarts), pool compared with the model after every operation, final state root, storage dump, own trie and lock-step continuation compared with the source. Blocks stage (added after the third mutation round): blocks of the traceable window offered under the genuine header with a stripped / shortened / reordered / foreign transaction list, or under another header, must be refused and the window read back after the jump must equal the source's blocks with their transactions; proved for the model of AddBlock: accepted implies header hash = synchronised header's and Merkle(delivered transactions) = header's Merkle root. Restart exactness (fourth round): source tries with shared interior nodes, a node stored at several paths before its children followed by a restart at single-node granularity, reference counts on disk compared with occurrences; proved: after a restart at any point the pool holds exactly every path of every missing node below every restored occurrence of its parent (refuted for the overwriting traversal). Partial: crash (non-clean) restarts, storage-item sync mode, uint32 wrap-around.",
     note="Trusted: Coq kernel, the Go harness, ./check; models are hand-written and tied by correspondence. Known findings F8, F38 and F45 are listed until their fixes (fixes/F8-*.diff, fixes/F38-*.diff, fixes/F45-*.diff) are committed.",
 )
